@@ -375,6 +375,24 @@ pub fn push_dust(exps: &mut Vec<Exp>, cw20: bool, depth: usize) {
                 ]);
             }
         }
+        if q < b {
+            // the two histories on which the thorough tier first found a refused dust liquidation (fixed in 906a7b7 and
+            // 538cd6a): a position worth zero quote units at the oracle price, and a full liquidation with a zero fee
+            seeds.push(vec![
+                Act::Open { t: "alice".into(), v: 0, buy: true, margin: 5 * D, lev: 2 * D, limit: 0 },
+                Act::Open { t: "bob".into(), v: 0, buy: false, margin: 1, lev: D, limit: 0 },
+                Act::blk(1200),
+            ]);
+            seeds.push(vec![
+                Act::Open { t: "alice".into(), v: 0, buy: true, margin: 3, lev: 10 * D, limit: 0 },
+                Act::Open { t: "carol".into(), v: 0, buy: true, margin: 100_000, lev: 10 * D, limit: 0 },
+                Act::Open { t: "bob".into(), v: 0, buy: false, margin: 3 * D, lev: D, limit: 0 },
+                Act::blk(1200),
+                px_at_spot(),
+                Act::close("carol"),
+                Act::Liq { by: "liq".into(), t: "alice".into(), v: 0, limit: 0 },
+            ]);
+        }
         let name = if q < b { "dust positions, price 0.1" } else { "dust positions, price 10" };
         let from_scratch = vec![seeds.remove(0)];
         for (sd, d) in [(from_scratch, depth), (seeds, depth - 1)] {
